@@ -730,7 +730,7 @@ impl<'a> Monitor<'a>
                 self.register(id, &b, Mode::Revokable, issued.token);
             }
             Op::Revoke(k) => { self.revoke(k); self.revoked_since_table_ok = true; }
-            Op::Gc => { self.gc_point(); }
+            Op::Gc => {}
             Op::Poll => { self.gc_irrelevant(); }
             Op::Nop => {}
             Op::DropSignal(e) =>
@@ -1256,8 +1256,6 @@ impl<'a> Monitor<'a>
 
     fn on_runner_enter(&mut self, target: Name, counter: u32)
     {
-        // garbage collection + poll happen right after entry
-        self.gc_point();
         let (obl, replay) = match self.pending
         {
             Pending::Cmd(i) => (Some(i), false),
@@ -1335,8 +1333,12 @@ impl<'a> Monitor<'a>
                 self.out.postponed += 1;
                 if !busy
                 {
+                    // not run in-line although the target is not executing: both the exactly-once / in-line clause
+                    // (C02) and the telescoping order (C09)
                     self.viol("C02", "R-reach", "postponed-idle".into(),
                         format!("actor {actor} is not executing but its command was postponed"));
+                    self.viol("C09", "R-reach", "postponed-idle".into(),
+                        format!("actor {actor} is not executing but its command was postponed instead of running in-line"));
                 }
                 if let Some(i) = obl
                 {
@@ -1371,8 +1373,6 @@ impl<'a> Monitor<'a>
                     self.obls[i].state = OState::Aborted;
                     self.update_refcounts();
                 }
-                // cleanup_on_abort collects garbage
-                self.gc_point();
             }
         }
     }
@@ -1780,7 +1780,6 @@ impl<'a> Monitor<'a>
         let explicit_poll = matches!(self.last_top_op, Some(Op::Poll));
         if self.cfg.update_after_top || explicit_poll
         {
-            if self.cfg.update_after_top { self.gc_point(); }
             self.check_polled_deadline(self.pos);
         }
         // R-once: nothing non-polled may be pending
@@ -1911,7 +1910,8 @@ impl<'a> Monitor<'a>
                 Hook::Scheduled{ kind, target, source } => self.on_scheduled(*kind, *target, *source),
                 Hook::RunnerEnter{ target, counter } => self.on_runner_enter(*target, *counter),
                 Hook::RunnerDecision{ target, decision } => self.on_decision(*target, *decision),
-                Hook::RunnerBodyDone{ .. } => { self.gc_point(); }
+                Hook::RunnerBodyDone{ .. } => {}
+                Hook::Gc => { self.gc_point(); }
                 Hook::RunnerReinsert{ target, reinserted } =>
                 {
                     let pos = self.pos;
@@ -1928,7 +1928,6 @@ impl<'a> Monitor<'a>
                             }
                         }
                     }
-                    self.gc_point();
                 }
                 Hook::RunnerReplay{ target, .. } =>
                 {
@@ -1951,7 +1950,6 @@ impl<'a> Monitor<'a>
                             self.obls[i].state = OState::Aborted;
                         }
                         self.pending = Pending::None;
-                        self.gc_point();
                     }
                 }
                 Hook::RunnerExit{ target, counter } => self.on_runner_exit(*target, *counter),
